@@ -108,7 +108,22 @@ def runCalls (call : Writer → FS → Doc → Writer × FS × Outcome) : Writer
     let (w2, fs2, os) := runCalls call w1 fs1 ds
     (w2, fs2, o :: os)
 
-/-! ### reading the files back (specification side) -/
+/-! ### specification side: which file, what text, reading the files back -/
+
+/-- the file a JSONWriter writes a run to: the constructor's `filename` if given (non-empty),
+    else the first `-`-separated piece of the start document's uid + ".json" -/
+def arrayFile (w : Writer) (u : String) : String :=
+  if truthy w.filename then w.filename.getD "" else splitHead u "-" ++ ".json"
+
+/-- the file a JSONLinesWriter appends to, fixed by its first call -/
+def linesFile (today : String) (w : Writer) (d : Doc) (u : String) : String :=
+  if truthy w.filename then w.filename.getD ""
+  else if d.name = "start" then splitHead u "-" ++ ".jsonl" else today ++ ".jsonl"
+
+/-- what is put between the old content and the first new record: a newline iff the old content is
+    non-empty and its last line is unterminated -/
+def lineFix (pre : String) : String := if pre ≠ "" ∧ endsWith '\n' pre = false then "\n" else ""
+
 
 /-- concatenation of texts -/
 def concatAll : List String → String
